@@ -74,7 +74,19 @@ BBDisjoint(a, b) == LET x == BBox(a) y == BBox(b) IN x[3] < y[1] \/ y[3] < x[1] 
 Features == [pdeg |-> HasDegenerate(p), qdeg |-> HasDegenerate(q), shared |-> SharedOverlap(p, q),
              selfov |-> SelfOverlap(p) \/ SelfOverlap(q), bbdisj |-> BBDisjoint(p, q), tj |-> TJunction(p, q)]
 
+\* ---- register programs: the result of one operation is fed back as operand of the next -------------------------
+\* What = "prog": q holds two operands <<q1, q2>>; the program is  (p op1 q1) op2 q2  for all op1, op2 in and/or/xor/not
+ProgOps == <<"and", "or", "xor", "not">>
+Cell2(op, c1, wb) == IF c1 = 2 \/ wb = FREE THEN 2 ELSE CellW(op, c1, wb)       \* c1 in {0,1} acts as a winding value
+ProgScenario ==
+    LET wp == WVec(P) w1 == WVec(ScaleP(S, q[1])) w2 == WVec(ScaleP(S, q[2]))
+        all == p \o q[1] \o q[2]
+    IN [p |-> p, q1 |-> q[1], q2 |-> q[2],
+        f |-> [pdeg |-> HasDegenerate(all), qdeg |-> FALSE, shared |-> SelfOverlap(all), selfov |-> FALSE, bbdisj |-> FALSE, tj |-> TJunction(all, <<>>)],
+        cells |-> [i \in 1..4 |-> [j \in 1..4 |-> [k \in 1..NS |-> Cell2(ProgOps[j], CellW(ProgOps[i], wp[k], w1[k]), w2[k])]]]]
+
 Scenario ==
+    IF What = "prog" THEN ProgScenario ELSE
     IF What = "bool"
     THEN LET wp == WVec(P) wq == WVec(Q) IN
          [p |-> p, q |-> q, wp |-> wp, wq |-> wq, f |-> Features,
@@ -87,7 +99,9 @@ Scenario ==
 \* (Measured: choosing q inside the Emit action and printing Scenario' is 20x slower than enumerating the
 \* pairs as initial states, because primed LET definitions are not cached by TLC.)
 Init == /\ p \in Choice
-        /\ IF What = "bool" THEN q \in Choice ELSE q = <<>>
+        /\ IF What = "bool" THEN q \in Choice
+           ELSE IF What = "prog" THEN q \in {<<a, b>> : a \in Choice, b \in RandomSubset(3, Operands)}
+           ELSE q = <<>>
         /\ done = FALSE
 Emit == /\ ~done /\ done' = TRUE /\ UNCHANGED <<p, q>>
         /\ PrintT("@@" \o ToJson(Scenario))
